@@ -6,6 +6,7 @@
 # SPDX-License-Identifier:    LGPL-3.0-or-later
 
 import hashlib
+import numbers
 
 from ufl.algorithms.domain_analysis import canonicalize_metadata
 from ufl.classes import (
@@ -139,6 +140,18 @@ def compute_expression_signature(expr, renumbering):  # FIXME: Fix callers
     return expression_hashdata.hex()
 
 
+def _canonical_subdomain_id(subdomain_id):
+    """Spell integer subdomain ids as Python ints.
+
+    Equal ids (1 and numpy.int64(1)) give equal forms and must print alike.
+    """
+    if isinstance(subdomain_id, numbers.Integral):
+        return int(subdomain_id)
+    if isinstance(subdomain_id, tuple):
+        return tuple(_canonical_subdomain_id(i) for i in subdomain_id)
+    return subdomain_id
+
+
 def compute_form_signature(form, renumbering):  # FIXME: Fix callers
     """Compute form signature."""
     # Extract integrands
@@ -172,7 +185,7 @@ def compute_form_signature(form, renumbering):  # FIXME: Fix callers
             domain_hashdata,
             integral.integral_type(),
             extra_domain_integral_type_map_hashdata,
-            integral.subdomain_id(),
+            _canonical_subdomain_id(integral.subdomain_id()),
             canonicalize_metadata(integral.metadata()),
         )
 
